@@ -32,14 +32,20 @@ R == Trace[l]
 Is(k) == l > 0 /\ R.k = k
 
 \* ---------------------------------------------------------------- monitor
-\* fixed layouts: one field takes the values vs[i], the rest the base pattern.
-\* Per value: decoded field = encoded value (byte strings), the whole decoded
-\* struct equals the input struct (rt), re-encoding reproduces the bytes (re),
-\* encode/decode worked in a buffer of exactly the declared length (err).
+\* fixed layouts: one field takes the values Val(i) (classes: vs[i]; sweep: pre
+\* followed by the byte i-1), the rest the base pattern.  Per value, flag bits
+\* fl[i]: 1 canon (the input is a protocol value), 2 encode/decode worked in a
+\* buffer of exactly the declared length, 4 rt (the whole decoded struct equals
+\* the input struct), 8 re (re-encoding reproduces the bytes), 16 neg, 32 rest;
+\* db[i] the decoded field as a byte string.
+NVals == IF R.mode = "sweep" THEN 256 ELSE Len(R.vs)
+Val(i) == IF R.mode = "sweep" THEN R.pre \o <<i - 1>> ELSE R.vs[i]
+Bit(x, k) == (x \div (2 ^ k)) % 2 = 1
 RLayRoundTrip == Is("lay") =>
-   \A i \in DOMAIN R.vs :
-      R.canon[i] => R.err[i] = "nil" /\ R.db[i] = R.vs[i] /\ R.rt[i]
-RLayReencode == Is("lay") => \A i \in DOMAIN R.vs : R.canon[i] => R.re[i]
+   /\ Len(R.fl) = NVals /\ Len(R.db) = NVals
+   /\ \A i \in 1 .. NVals :
+         Bit(R.fl[i], 0) => Bit(R.fl[i], 1) /\ R.db[i] = Val(i) /\ Bit(R.fl[i], 2)
+RLayReencode == Is("lay") => \A i \in 1 .. NVals : Bit(R.fl[i], 0) => Bit(R.fl[i], 3)
 \* a valid encoding is reproduced by decode + encode
 RLaybReencode == Is("layb") => (WF!ValidEnc(R.m, R.b) => R.err = "nil" /\ R.reenc = R.b)
 \* leap/version/mode accessors agree with the first byte of the encoding
@@ -69,12 +75,12 @@ RCrypt == Is("crypt") => R.e.n = R.keyid /\ R.edec_ok /\ SameCk(R.out, R["in"])
 \* ----------------------------------------------------------------- strict
 ValsOf(m, rec) == [f \in WF!FieldNames(m) |-> rec[f]]
 SLayBytes == Is("lay") =>
-   \A i \in DOMAIN R.vs :
-      R.canon[i] =>
-         /\ R.eb[i] = R.vs[i]                                   \* big-endian at the table's offset
-         /\ R.rest[i]                                           \* nothing else disturbed
-         /\ R.neg[i] = WF!Neg(WF!RowOf(R.m, R.f).ty, R.vs[i])   \* signedness
-         /\ R.declen[i] = WF!DeclLen(R.m, IF R.f = "FlagField" /\ WF!HasCond(R.m) THEN R.vs[i][4] % 2 = 1 ELSE R.ssds)
+   \A i \in 1 .. NVals :
+      (Bit(R.fl[i], 0) /\ Bit(R.fl[i], 1)) =>
+         /\ R.eb[i] = Val(i)                                          \* big-endian at the table's offset
+         /\ Bit(R.fl[i], 5)                                           \* nothing else disturbed
+         /\ Bit(R.fl[i], 4) = WF!Neg(WF!RowOf(R.m, R.f).ty, Val(i))   \* signedness
+         /\ R.declen[i] = WF!DeclLen(R.m, IF R.f = "FlagField" /\ WF!HasCond(R.m) THEN Val(i)[4] % 2 = 1 ELSE R.ssds)
 SLayFull == Is("lay") => (R.canon0 => R.enc0 = WF!EncodeLay(R.m, ValsOf(R.m, R.vals0)))
 SLayb == Is("layb") => (WF!ValidEnc(R.m, R.b) => ValsOf(R.m, R.dec) = WF!DecodeLay(R.m, R.b))
 SLvm == Is("lvm") => /\ R.li = WF!Li(R.x) /\ R.vn = WF!Vn(R.x) /\ R.mode = WF!Mode(R.x)
